@@ -28,6 +28,9 @@ InitGraphs ==
     [] Family = "M3" -> AllMixed(3)
     [] Family = "A4" -> OrderedADMG(4)
     [] Family = "RND" -> RandomGraphs
+    \* cyclic directed parts on 4 nodes (used with the directed-path operation only, see Next)
+    [] Family = "M4c" -> {G \in {MkG(1..4, d, b) : d \in {dd \in SUBSET Pairs(4) : Cardinality(dd) \in 3..5},
+                                                  b \in {{}, {{1, 2}}, {{3, 4}}}} : ~IsAcyclic(G)}
 
 JG(G) == [n |-> G.n, d |-> G.d, b |-> G.b]
 
@@ -78,7 +81,10 @@ PFixA(v)        == Obs("is_p_fixable", {v}, {PFixable(g, v)})
 
 Next ==
   /\ Len(hist) <= Depth
-  /\ \/ \E S \in SUBSET g.n :
+  /\ IF Family = "M4c"
+     THEN \E s \in g.n : \E t \in g.n : PathsA({s}, {t}) \/ (\E s2 \in g.n : s2 > s /\ PathsA({s, s2}, {t}))
+     ELSE
+     \/ \E S \in SUBSET g.n :
           \/ Subgraph(S) \/ RemIn(S) \/ RemOut(S) \/ RemNodes(S) \/ InterveneA(S)
           \/ Ancestors(S) \/ Descendants(S) \/ PillowA(S) \/ BlanketA(S)
           \/ PreOrdA(S) \/ PreA(S)
